@@ -1,7 +1,7 @@
 package main
 
 // Rendering of one correspondence case for Corr/C19Run.v:
-//   KRecover cid files journal next queries seq_tables seq_end l0_tables l0_final
+//   KRecover cid strict files journal next queries seq_tables seq_end l0_tables l0_final
 // files = the table files (shuffled order) as lists of blocks, each block flagged damaged or not; the model
 // scans them as recoverTable does, registers the survivors at level 0, replays the journal batches and
 // answers the queries at seq_end.
@@ -36,7 +36,7 @@ func coqNums(ns []int64) string {
 	return "[" + strings.Join(items, "; ") + "]"
 }
 
-func renderK(cid int, tables []*TableInfo, batches []JBatch, next int64, qs []string, seqTables, seqEnd uint64, l0a, l0b []int64) string {
+func renderK(cid int, strict bool, tables []*TableInfo, batches []JBatch, next int64, qs []string, seqTables, seqEnd uint64, l0a, l0b []int64) string {
 	var fs []string
 	// hand the files over in descending order: the model must sort them as recoverTable does
 	for i := len(tables) - 1; i >= 0; i-- {
@@ -51,6 +51,6 @@ func renderK(cid int, tables []*TableInfo, batches []JBatch, next int64, qs []st
 	for _, b := range batches {
 		js = append(js, fmt.Sprintf("KJ %d %s", b.Seq, coqEntries(b.Entries)))
 	}
-	return fmt.Sprintf("KRecover %d [%s] [%s] %d [%s] %d %d %s %s", cid, strings.Join(fs, ";\n   "), strings.Join(js, "; "), next,
+	return fmt.Sprintf("KRecover %d %s [%s] [%s] %d [%s] %d %d %s %s", cid, vlib.CoqBool(strict), strings.Join(fs, ";\n   "), strings.Join(js, "; "), next,
 		strings.Join(qs, "; "), seqTables, seqEnd, coqNums(l0a), coqNums(l0b))
 }
